@@ -6,6 +6,11 @@ PROP = dict(
     harness=[dict(name="rpc", pkg=".", run="^TestVerif_C02$",
                   files={"zz_verif_fixture_test.go": "harness/main/fixture_test.go",
                          "zz_verif_c02_test.go": "harness/main/c02_test.go"},
+                  # VERIF_C02_OTHER_CONTENT: an epoch replaced (ReplaceOrAddEpoch) by a build of the same number with OTHER
+                  # blocks at the same slots. The pinned tree answers getBlock for such slots from the shared cache's
+                  # slot -> CID entries of the replaced build (keyed by the slot only) for up to the cache life time.
+                  # "observe" = recorded as notes / counters / measured flag, "enforce" = reported as failures, "off" = skipped.
+                  env={"VERIF_C02_OTHER_CONTENT": "observe"},
                   timeout=900, timeout_thorough=2400)],
     technique="Coq proof of the response assembly (order-independent concurrent fetch, position sort, blockhash / previous-blockhash rule, epoch routing on top of the C18 FirstSuccess theorems) + end-to-end differential run of JSON-RPC and gRPC against generated epochs + slottools.CalcEpochForSlot / CalcEpochLimits / range overlap translated on every run (GoLite) and proved equal to the model's epoch routing",
     level_text="Theorems (Coq, no axioms): for every set of loaded epochs, every archived block and EVERY completion order of the concurrent fetches the reply carries slot, parent, time, height, blockhash, previous blockhash (parent in same epoch) and all transactions each once in position order (unique when positions are distinct); for every concurrency limit and schedule of the epoch search a signature archived in exactly one loaded epoch is routed there and an unarchived one is not-found. Tie: every block and (half of the) transactions of three generated epochs (incl. epoch 0 with genesis, multi-frame payloads, 1..4 entries per block) are requested through JSON-RPC in 4 encodings and through gRPC with epoch sets {1},{1,2},{0,1,2} and concurrency 1/NumCPU, compared field by field and byte by byte with the generator's truth; transaction order and previous-blockhash decisions are re-checked by the Coq model.; slottools' epoch routing functions are translated from the Go source on every run and proved to be the model's epoch_of / epoch limits (C02_translated_* theorems)",
